@@ -2,7 +2,7 @@
 # tools/confirm_seed.sh <PROP> [name]  — confirm a sub-agent's seeded change in its scratch worktree
 # /tmp/wt_<PROP>: demo fails with the change, passes without, existing suite passes with it.
 # On success copies patch.diff / demo.py / README.md to /verif/seeded/<name>/.
-P="$1"; NAME="${2:-$1}"; WT="/tmp/wt_$P"
+P="$1"; NAME="${2:-$1}"; WT="${SEED_WT:-/tmp/wt_$P}"
 cd "$WT" || exit 2
 export PYTHONDONTWRITEBYTECODE=1 PYTHONPATH="$WT"
 git diff -- ioos_qc > /tmp/confirm_$P.diff
